@@ -25,10 +25,13 @@ const (
 )
 
 type Inst struct {
-	Name   string
-	Kind   Kind
-	Rows   uint8 // configured TotalRows of a map forest
-	nohash bool  // a full map forest that is given targets-only proofs for its own blocks and their undo
+	Name     string
+	Kind     Kind
+	Rows     uint8 // configured TotalRows of a map forest
+	bufReuse bool  // arguments of consecutive calls share their backing arrays (see reuseH/reuseU)
+	poolH    map[string][]Hash
+	poolU    map[string][]uint64
+	nohash   bool // a full map forest that is given targets-only proofs for its own blocks and their undo
 
 	S utreexo.Stump
 	P *utreexo.Pollard
@@ -168,6 +171,7 @@ func NewWorld(sy *Symb, c WorldCfg) *World {
 			&Inst{Name: "map.full.0.nohash", Kind: KMapFull, Rows: 0, M: newMap(true, 0), nohash: true})
 	}
 	if c.MapPart {
+		w.insts = append(w.insts, &Inst{Name: "map.part.63.reuse", Kind: KMapPart, Rows: 63, M: newMap(false, 63), cached: map[int]bool{}, bufReuse: true})
 		w.insts = append(w.insts, &Inst{Name: "map.part.63.custom", Kind: KMapPart, Rows: 63, M: newMapCustom(false, 63), cached: map[int]bool{}},
 			&Inst{Name: "map.part.0.custom", Kind: KMapPart, Rows: 0, M: newMapCustom(false, 0), cached: map[int]bool{}})
 	}
@@ -236,6 +240,35 @@ func (w *World) encTargets(ts []JPos, R uint8) []uint64 {
 		out[i] = w.encR(t.RI(), R)
 	}
 	return out
+}
+
+// reuseH / reuseU hand out the same backing array for every argument of a given name and length
+func (in *Inst) reuseH(name string, src []Hash) []Hash {
+	if in.poolH == nil {
+		in.poolH = map[string][]Hash{}
+	}
+	k := fmt.Sprintf("%s/%d", name, len(src))
+	b := in.poolH[k]
+	if b == nil {
+		b = make([]Hash, len(src))
+		in.poolH[k] = b
+	}
+	copy(b, src)
+	return b
+}
+
+func (in *Inst) reuseU(name string, src []uint64) []uint64 {
+	if in.poolU == nil {
+		in.poolU = map[string][]uint64{}
+	}
+	k := fmt.Sprintf("%s/%d", name, len(src))
+	b := in.poolU[k]
+	if b == nil {
+		b = make([]uint64, len(src))
+		in.poolU[k] = b
+	}
+	copy(b, src)
+	return b
 }
 
 // rows, encR, big: tree rows, position numbers and leaf counts of the (possibly lifted) forest
